@@ -51,7 +51,9 @@ Exits(k) == IF k <= 4 THEN 0..(Pow2(k) - 1)
             ELSE IF k = 8 THEN {0, 1, 2, 3, 127, 128, 129, 254, 255}
             ELSE {0, 1, 255, 256}       \* width 16: only early exits are evaluated inside TLC
 
+NestWidths == {<<1, 1>>, <<1, 2>>, <<2, 1>>, <<2, 2>>, <<4, 1>>, <<2, 4>>}   \* <<outer width, inner width>>
 FWFamilies == {[k |-> k, poisoned |-> p] : k \in Widths, p \in BOOLEAN} \cup {[k |-> k, shape |-> "count"] : k \in Widths}
+              \cup {[k |-> kk[1], k2 |-> kk[2], shape |-> "nest"] : kk \in NestWidths}
 
 \* a loop whose body never looks at the counter: it counts its own iterations in the accumulator and leaves when the
 \* count reaches the limit passed as context (the number of iterations is then observable although i is unused)
@@ -124,5 +126,38 @@ FWProgram(k, poisoned) ==
       space |-> [i \in 1..(2 * Len(exits)) |-> pt(TRUE, exits[(i + 1) \div 2], i % 2 = 1)]
                 \o (IF k <= 8 THEN <<pt(FALSE, 0, TRUE), pt(FALSE, 0, FALSE)>> ELSE <<>>)]
 
-FWProgramsOf(f) == IF "shape" \in DOMAIN f THEN {CountProgram(f.k)} ELSE {FWProgram(f.k, f.poisoned)}
+\* a loop inside a loop body: on outer iteration i the inner loop (counter width k2, context = i) mixes c and j into the
+\* accumulator for j = 0, 1, ... and leaves with Left at j = i (when i < 2^k2), otherwise runs to the end (Right); the outer
+\* body tags which of the two happened (7 / 5), and leaves when i equals the limit carried by its own context.  Every
+\* value below is order-sensitive in i and in j, so an inner loop that restarts, skips, or sees another context shows.
+InnerBody(k2) ==
+  IFn("inner", <<Param("acc", TU(8)), Param("c", TU(8)), Param("j", TU(k2))>>, <<TEither(TU(8), TU(8))>>,
+      BlkE(<<SLet(PId("m"), TU(8), ECall(CFn("mix"), <<Ext(V("j"), k2, 8), ECall(CFn("mix"), <<V("c"), V("acc")>>)>>))>>,
+           EMatch(JetE("eq_8", <<Ext(V("j"), k2, 8), V("c")>>), <<Arm(MTrue, ELeft(V("m"))), Arm(MFalse, ERight(V("m")))>>)))
+OuterBody(k) ==
+  IFn("body", <<Param("acc", TU(8)), Param("lim", TU(8)), Param("i", TU(k))>>, <<TEither(TU(8), TU(8))>>,
+      BlkE(<<SLet(PId("r"), TEither(TU(8), TU(8)), ECall(CForWhile("inner"), <<V("acc"), Ext(V("i"), k, 8)>>)),
+             SLet(PId("a"), TU(8), EMatch(V("r"), <<Arm(MLeft("l", TU(8)), ECall(CFn("mix"), <<Dec(7), V("l")>>)),
+                                                    Arm(MRight("q", TU(8)), ECall(CFn("mix"), <<Dec(5), V("q")>>))>>))>>,
+           EMatch(JetE("eq_8", <<Ext(V("i"), k, 8), V("lim")>>), <<Arm(MTrue, ELeft(V("a"))), Arm(MFalse, ERight(V("a")))>>)))
+RefNest(k, k2, lim) ==
+  LET items == <<MixFn(8), InnerBody(k2), OuterBody(k), Main(Blk(<<>>))>>
+      m == MainCtx(items, G0)
+      C == [fns |-> m.G.fns, al |-> m.G.al, wit |-> EmptyFn, args |-> EmptyFn, env |-> DummyEnv]
+  IN WhileLoop(m.G.fns["body"], VU(BitsOfNat(1, 8)), VU(BitsOfNat(lim, 8)), 0, k, C)
+NestProgram(k, k2) ==
+  LET tr == TEither(TU(8), TU(8))
+      items == <<MixFn(8), InnerBody(k2), OuterBody(k),
+                 Main(Blk(<<SLet(PId("c"), TU(8), EWit("CTX")),
+                            SLet(PId("r"), tr, ECall(CForWhile("body"), <<Dec(1), V("c")>>)),
+                            SLet(PId("x"), tr, EWit("EXP"))>> \o Obs(tr, "r", "x")))>>
+      lims == SetToSeq(0..Pow2(k))
+      pt(lim, good) == LET v == RefNest(k, k2, lim) IN
+                       ("CTX" :> VU(BitsOfNat(lim, 8))) @@ ("EXP" :> IF good THEN v ELSE Wrong(v))
+  IN [items |-> items, wdecls |-> <<<<"CTX", TU(8)>>, <<"EXP", tr>>>>, args |-> EmptyFn,
+      space |-> [i \in 1..(2 * Len(lims)) |-> pt(lims[(i + 1) \div 2], i % 2 = 1)]]
+
+FWProgramsOf(f) == IF "shape" \in DOMAIN f
+                   THEN (IF f.shape = "nest" THEN {NestProgram(f.k, f.k2)} ELSE {CountProgram(f.k)})
+                   ELSE {FWProgram(f.k, f.poisoned)}
 =============================================================================
